@@ -13,7 +13,7 @@ CLAIMED = {
             NOTE, "induction + invariant over operation lists; differential correspondence"),
     "C14": ("Refinement theorem: for every operation sequence the queue model (disk directory + in-memory head/size/multiset) produces exactly the "
             "outputs of a reference coalescing FIFO, keeps a gap-free numbered directory and reloads to the same queue; codec round-trip for all flags "
-            "and all normal paths; drain order = latest enqueues. Handler level, EVERY oracle: a qualifying write that handle_close_write answers without an error is in the queue (no silent loss). Tie: exhaustive short sequences + random long ones against the real linq.c on a real directory with a virtual clock.",
+            "and all normal paths; drain order = latest enqueues. Handler level, EVERY oracle: a qualifying write that handle_close_write answers without an error is in the queue (no silent loss); over histories of accepted writes, passes, environment changes and RESTARTS (the real load_handler) queue and directory refine the reference queue computed from the event list, the directory is a gap-free run of numbered links at every prefix, and a restart reloads to the same queue (same entries, head, next name). Tie: exhaustive short sequences + random long ones against the real linq.c on a real directory with a virtual clock.",
             NOTE + "Known finding F8 (un-normal paths, API level) is reported as KNOWN-FINDING.", "simulation relation to an abstract FIFO; differential correspondence"),
     "C01": ("Theorems over every reachable state of the queue model under any interleaving of writes, clock advances (non-negative), timeout passes, "
             "debounce changes and restarts: a path is yielded only if all its accepted writes are at least the debounce in force old; a finite wait is "
@@ -35,7 +35,7 @@ CLAIMED = {
             "World level, for every benign oracle: one timeout pass of the handler over the file system, whose due prefix consists of plain heads (flags 0, first candidate name free), stores exactly one version of each "
             "with its current content, in queue order; nothing else appears; every other name and inode is unchanged; the journal gets one line per entry; the on-disk queue is the rest and still refines the reference queue; "
             "the wait is that of the rest; no error (composition of the queue refinement, the exact copy and the handler loop). Write and pass composed: a write accepted at t0, any change of the world that leaves the queue directory alone, then a pass: nothing stored before t0 + debounce, "
-            "exactly one version with the content at the pass from then on; and in the property's own shape: after ANY history of accepted writes to any number of files interleaved in any order the queue refines the list of (path, time) in order of acceptance, times are sorted so a due entry is never behind one that is not, a path is stored by a pass iff its LAST write is at least the debounce old, and the pass stores exactly one version per such path (content at the pass, order of last writes), skipping superseded duplicates. Tie: random burst histories at world level incl. a store made unusable for one pass; the burst "
+            "exactly one version with the content at the pass from then on; and in the property's own shape: after ANY history of accepted writes to any number of files interleaved in any order the queue refines the list of (path, time) in order of acceptance, times are sorted so a due entry is never behind one that is not, a path is stored by a pass iff its LAST write is at least the debounce old, and the pass stores exactly one version per such path (content at the pass, order of last writes), skipping superseded duplicates; and a pass whose due prefix mixes ordinary files, history files, project members and projects in any order (pairwise independent): item by item each postcondition holds, nothing extra, nothing lost, versions in queue order. Tie: random burst histories at world level incl. a store made unusable for one pass; the burst "
             "monitor predicts from the on-disk queue what is due and demands exactly one new version with the current content, the remaining queue and the wait.",
             NOTE + "The world theorem covers plain heads without collision; history, project and collision heads are covered by C08/C11/C04 theorems and by the correspondence. No concurrent writer.",
             "refinement + program-logic composition over the world model; world correspondence + burst monitor"),
@@ -71,15 +71,15 @@ CLAIMED = {
             "program logic for all oracles over the world model; fault enumeration against the model under the same oracle + monitors; trace lemmas"),
     "C11": ("Theorems: the flags of a queued project member round-trip. World level, every benign oracle, BOTH traversal orders: after the snapshot program the new directory holds, at the same relative paths, the same inodes "
             "as the unstable project tree for everything the project still has and nothing else; what the project lost is pruned; intermediate directories exist; store, earlier snapshots and all contents unchanged; "
-            "a due project head yields exactly one new snapshot directory (also after k name collisions), one journal line, and only then leaves the queue. File branch: a due project member gets its version and the unstable tree's entry for it becomes a hard link to "
+            "a due project head yields exactly one new snapshot directory (also after k name collisions), one journal line, and only then leaves the queue; projects whose roots end in different components never disturb each other's trees and snapshots (same last component: open finding K6, machine-checked). File branch: a due project member gets its version and the unstable tree's entry for it becomes a hard link to "
             "exactly that new inode (entry absent or pointing to an older version, which is untouched); member(s) and project entry due in one pass: version, unstable entry and snapshot entry are the same new inode, for any number of members in the burst. Tie: project histories (root and parent style, depth 1-4, "
             "deletions of files and whole sub-directories, restarts, both orders, a blocked project store); monitor: every new snapshot entry is the same inode as the latest version, survivors present, deleted absent, "
             "earlier snapshots untouched, a project entry leaves the queue only with exactly one snapshot.",
-            NOTE + "Member theorems assume the first candidate names free (collisions: C04/C11 head theorems). No symbolic links inside projects (the model's access() does not follow a dangling link).",
+            NOTE + "Open finding K6 (projects named by the last component of their root only). Member theorems assume the first candidate names free (collisions: C04/C11 head theorems). No symbolic links inside projects (the model's access() does not follow a dangling link).",
             "program logic over the inode-level file system for both fts orders; world correspondence + project monitor"),
     "C19": ("Theorems: line format (empty timestamp/label omitted with their tab, pid omitted when 0), exactly one newline, any positive chunking of the write appends exactly the line once, a labelled "
-            "event appends exactly its line and nothing else changes, unlabelled events / no journal do nothing; handler level, whole histories of exec / write / timeout events: the journal is only appended to (EVERY oracle), and for oracles that only cut writes the appended part is a concatenation of whole lines, one per labelled event, with the label selected by the event kind and the writer's status and the stamp of the event's clock. Tie: all label choices, timestamp patterns including the empty one, short writes (one call / every write of an operation), reloads that change the stamp pattern, journal monitor (append-only whole lines, stamp in force, event path as last field).",
-            NOTE + "Effective reloads are outside the history theorems (single-event results only). Hypothesis: no name below the offset root leads to the journal inode (necessary: refuted without it).", "induction over the write loop for all chunkings; invariant over event histories for all oracles; world correspondence + journal monitor"),
+            "event appends exactly its line and nothing else changes, unlabelled events / no journal do nothing; handler level, whole histories of exec / write / timeout events: the journal is only appended to (EVERY oracle), and for oracles that only cut writes the appended part is a concatenation of whole lines, one per labelled event, with the label selected by the event kind and the writer's status and the stamp of the event's clock; with rewrites of the configuration (benign oracles): every journal file that was ever in force holds its initial content followed by exactly the lines of the events that happened while it was in force, each under the label and stamp pattern of the configuration in force when the event began (the rewrite itself under the old one); a journal out of force is never touched again; a rejected rewrite is journalled, ends in an error and changes nothing. Tie: all label choices, timestamp patterns including the empty one, short writes (one call / every write of an operation), reloads that change the stamp pattern, journal monitor (append-only whole lines, stamp in force, event path as last field).",
+            NOTE + "Hypothesis: no name below the offset root leads to the journal inode (necessary: refuted without it).", "induction over the write loop for all chunkings; invariant over event histories for all oracles; world correspondence + journal monitor"),
     "C20": ("Theorems for every oracle: a timeout pass, an exec event and any sequence of events release every descriptor they acquire (count from the call log: opens that returned a descriptor minus closes); "
             "loading acquires exactly what the handler holds and releasing gives it back; a whole session returns the count to its start; with reloads the count moves with what the handler holds. "
             "Heap: measured on the real code (wrapped allocator): one mixed round repeated 1, 10, 100 times ends with identical live-block and descriptor counts, 0 after release; 2 descriptors after every operation; the real main() loop over 5-60 scripted events of every kind closes each event's descriptor exactly once.",
